@@ -18,11 +18,11 @@ var Names = []string{"a", "b", "c", "d"}
 
 // Gen produces abstract trees, addresses and Go representations from the tape.
 type Gen struct {
-	R        *sim.R
-	Ctr      int
-	MaxDepth int
-	MaxWidth int
-	AllowNil bool
+	R          *sim.R
+	Ctr        int
+	MaxDepth   int
+	MaxWidth   int
+	AllowNil   bool
 	AllowEmpty bool
 }
 
@@ -111,11 +111,11 @@ func (g *Gen) Container() *model.Node {
 
 // Representation kinds.
 const (
-	RepGeneric = iota // map[string]interface{} / []interface{}
-	RepIfaceMap       // map[interface{}]interface{} for dictionaries
-	RepConfig         // an existing *Config created from the generic form
-	RepStruct         // a reflect.StructOf struct with fields A..D for dictionaries
-	RepTyped          // typed maps/slices where the content is homogeneous
+	RepGeneric  = iota // map[string]interface{} / []interface{}
+	RepIfaceMap        // map[interface{}]interface{} for dictionaries
+	RepConfig          // an existing *Config created from the generic form
+	RepStruct          // a reflect.StructOf struct with fields A..D for dictionaries
+	RepTyped           // typed maps/slices where the content is homogeneous
 	RepCount
 )
 
